@@ -836,6 +836,23 @@ theorem bidirectional_full_spec {CF CB YF YB : Type} (cellF : CF → X → CF ×
        List.zipWith merge (pyLoop cellF c0f xs).2 (pyLoop cellB c0b xs.reverse).2.reverse) := by
   simp [bidirRow, rnn_full_spec]
 
+/-- **flag resolution**: a call-time value wins over the constructor attribute; without one the attribute is used -/
+theorem resolve_flag_spec (ctor v : Bool) : resolveFlag (some v) ctor = v ∧ resolveFlag none ctor = ctor := ⟨rfl, rfl⟩
+
+/-- **Bidirectional uses one resolved `time_major` for both directions**: the result depends on the constructor
+attribute and the call-time argument only through the resolved flag — in particular a call-time value that
+disagrees with the constructor (either way) gives exactly what a layer constructed with that value gives, and both
+the forward and the backward half are the `rnnBatch` runs with that same flag. -/
+theorem bidirectional_time_major_resolved {CF CB YF YB : Type} (cellF : CF → X → CF × YF) (cellB : CB → X → CB × YB)
+    (merge : YF → YB → Y) (ctor v : Bool) (T : Nat) (c0fs : List CF) (c0bs : List CB) (inputs : List (List X))
+    (lens : Option (List Nat)) :
+    bidirBatch cellF cellB merge ctor (some v) T c0fs c0bs inputs lens =
+      bidirBatch cellF cellB merge v none T c0fs c0bs inputs lens ∧
+    bidirBatch cellF cellB merge ctor (some v) T c0fs c0bs inputs lens =
+      (do let f ← rnnBatch cellF v T c0fs inputs lens false false
+          let b ← rnnBatch cellB v T c0bs inputs lens true true
+          pure ((f.1, b.1), List.zipWith (List.zipWith merge) f.2 b.2)) := ⟨rfl, rfl⟩
+
 /-- padding is inert for `Bidirectional` too -/
 theorem bidirectional_padding_inert {CF CB YF YB : Type} (cellF : CF → X → CF × YF) (cellB : CB → X → CB × YB)
     (merge : YF → YB → Y) (c0f : CF) (c0b : CB) (xs xs' : List X) (l : Nat) (h1 : 1 ≤ l) (h2 : l ≤ xs.length)
